@@ -77,7 +77,7 @@ class PWhite(PStochasticPattern):
         max = Pattern.value(self.max)
         length = Pattern.value(self.length)
         self.index += 1
-        if length > 0 and self.index > length + 1:
+        if length > 0 and self.index > length:
             raise StopIteration
 
         if type(min) == float:
